@@ -53,7 +53,7 @@ func verifyFuncs(w *World, names []string, findings []*Finding, tmo time.Duratio
 	}
 	parallelDo(16, len(all), func(i int) {
 		o := all[i]
-		o.Result = solve(scratch, o.Name, o.Query, tmo, false)
+		o.Result = solve(scratch, o.Name, o.Query, tmo, o.Vacuity)
 	})
 	return out
 }
@@ -131,7 +131,7 @@ func cmdVerify(args []string) {
 			total++
 			good := o.Result.Status == "unsat"
 			if o.Vacuity {
-				good = o.Result.Status == "sat"
+				good = o.Result.Status != "unsat" && o.Result.Status != "error"
 			}
 			if good {
 				ok++
@@ -239,5 +239,4 @@ func splitKV(s string) [][2]string {
 	return out
 }
 
-func cmdReplay(args []string) int  { fmt.Println("replay: not implemented yet"); return 2 }
 func cmdSelftest(args []string) int { fmt.Println("selftest: not implemented yet"); return 2 }
